@@ -283,14 +283,16 @@ func c13Panics(c *core.Ctx, g *c13Graph, sf *c13SpecFields) {
 		if e.rule != "" {
 			rule = e.rule
 		}
+		if ok && rest > e.n {
+			// its own obligation, so that it is not absorbed by a known finding on the reviewed sites
+			c.Violate(rule, n.name+"|explicit panic beyond the reviewed count", pos(c, restPos),
+				sprintf("%d explicit panic sites, only %d reviewed (%s): a new panic site reachable from %s", rest, e.n, e.reason, n.root),
+				n.chain()...)
+		}
 		switch {
 		case !ok:
 			c.Violate(rule, cons, pos(c, restPos),
 				sprintf("%d explicit panic site(s) reachable from %s are not in the reviewed table: decide whether validation keeps accepted configurations away from them (guard + Validate, or reason) and record it", rest, n.root),
-				n.chain()...)
-		case rest > e.n:
-			c.Violate(rule, cons, pos(c, restPos),
-				sprintf("%d explicit panic sites, only %d reviewed (%s): a new panic site reachable from %s", rest, e.n, e.reason, n.root),
 				n.chain()...)
 		case e.class == c13Defect:
 			var missing []string
